@@ -1096,3 +1096,65 @@ Fixpoint tree_table (parent next : Z) (t : tree) : Z * list nrec :=
   end.
 (* the file's table: the root record (uid 0) followed by the records of all nodes, parents before children *)
 Definition file_table (t : tree) : table := snd (tree_table (-1) 0 t).
+
+(* ====================================================================================================================== *)
+(* tables regenerated from the sources (Gen_C01.v) and the obligations over them                                           *)
+(* ====================================================================================================================== *)
+Inductive wdt := WLit (dt : bytes) | WSize | WParam.
+(* a cgi_new_node / cgi_new_node_partial call: function, parent label, name literal (None: an expression), label, data
+   type, rank (-1: an expression) *)
+Inductive wrow :=
+| WRow (fn parent : bytes) (name : option bytes) (label : bytes) (dt : wdt) (ndim : Z)
+| WUnparsed (fn what : bytes).
+(* a cgi_get_nodes call: function, parent label, child label, data types the code that follows accepts ([] = any) *)
+Inductive rrow :=
+| RRow (fn parent label : bytes) (accepts : list bytes)
+| RUnparsed (fn what : bytes).
+
+Definition wdt_ok (acc : list bytes) (d : wdt) : bool :=
+  match acc with
+  | [] => true
+  | _ => match d with WLit x => dt_in acc x | WSize => dt_in acc dI8 | WParam => true end
+  end.
+Definition reader_takes (rs : list rrow) (parent label : bytes) (d : wdt) : bool :=
+  existsb (fun r => match r with
+                    | RRow _ p l acc => bytes_eqb p parent && bytes_eqb l label && wdt_ok acc d
+                    | RUnparsed _ _ => false
+                    end) rs.
+(* (parent label, child label) pairs a writer emits on purpose although no reader of the mid-level library collects
+   them: none at present *)
+Definition write_only : list (bytes * bytes) := [].
+Definition wrow_closed (rs : list rrow) (w : wrow) : bool :=
+  match w with
+  | WUnparsed _ _ => false
+  | WRow _ p _ l d _ =>
+      reader_takes rs p l d || existsb (fun pl => bytes_eqb (fst pl) p && bytes_eqb (snd pl) l) write_only
+  end.
+Definition labels_closed (ws : list wrow) (rs : list rrow) : bool :=
+  forallb (wrow_closed rs) ws &&
+  forallb (fun r => match r with RUnparsed _ _ => false | RRow _ _ _ _ => true end) rs.
+Definition open_wrows (ws : list wrow) (rs : list rrow) : list wrow := filter (fun w => negb (wrow_closed rs w)) ws.
+
+(* every row of the hand-written schema is backed by the sources: some writer emits that child label under that parent
+   label with a data type the schema row lists, and some reader collects it there *)
+Definition writer_emits (ws : list wrow) (parent label : bytes) (dts : list bytes) : bool :=
+  existsb (fun w => match w with
+                    | WRow _ p _ l d _ =>
+                        bytes_eqb p parent && bytes_eqb l label &&
+                        match d with WLit x => dt_in dts x | WSize => dt_in dts dI8 | WParam => true end
+                    | WUnparsed _ _ => false
+                    end) ws.
+Definition schema_row_backed (ws : list wrow) (rs : list rrow) (row : bytes * bytes * list bytes) : bool :=
+  let '(p, l, dts) := row in
+  writer_emits ws p l dts && existsb (fun r => match r with RRow _ p' l' _ => bytes_eqb p p' && bytes_eqb l l' | _ => false end) rs.
+Definition schema_in_sources (ws : list wrow) (rs : list rrow) : bool := forallb (schema_row_backed ws rs) schema_rows.
+Definition unbacked_rows (ws : list wrow) (rs : list rrow) := filter (fun r => negb (schema_row_backed ws rs r)) schema_rows.
+
+(* the enumeration tables of the model are those of cgnslib.c *)
+Fixpoint assoc_b {A} (k : bytes) (l : list (bytes * A)) : option A :=
+  match l with [] => None | (k', v) :: r => if bytes_eqb k k' then Some v else assoc_b k r end.
+Definition enum_tables_match (gen : list (bytes * list bytes)) : bool :=
+  forallb (fun kv => match assoc_b (fst kv) gen with
+                     | Some t => list_eqb bytes_eqb t (snd kv)
+                     | None => false
+                     end) model_enum_tables.
